@@ -1,21 +1,22 @@
 package main
 
 import (
-	"sync"
-	"runtime/debug"
 	"crypto/md5"
 	"fmt"
 	"io"
 	"math"
 	"os"
 	"path/filepath"
+	"runtime/debug"
 	"sort"
 	"strings"
+	"sync"
 
 	"github.com/akrylysov/pogreb"
 	"github.com/akrylysov/pogreb/fs"
 
 	"verifharness/interp"
+	"verifharness/tfs"
 )
 
 // fsRunner executes the API-level commands of a case on any fs.FileSystem (C17): the same program
@@ -517,5 +518,129 @@ func genC17(r *rng, tier string, res *Result) {
 				Program: []string{"open", "512 x put ck-NNNN cv-NNNN-...", "sync", "8 goroutines: Get + Has of every key, several rounds"}})
 		}
 		res.Tags["concurrent_reader_runs"]++
+	}
+	c17TornHeader(r, tier, tmp, res)
+}
+
+// c17TornHeader: a segment file that is SHORTER than its 512-byte header (what is left of a segment
+// created just before the machine went down), with the lock file present. Whatever Open makes of it --
+// the shipped code refuses it -- it must make the same of it on every FileSystem implementation:
+// same results call by call, same segment files afterwards.
+func c17TornHeader(r *rng, tier string, tmp string, res *Result) {
+	lens := []int{1, 7, 8, 9, 12, 100, 511}
+	for round := 0; round < scale(tier, 3, len(lens)); round++ {
+		keep := lens[(round*3+r.intn(2))%len(lens)]
+		type outcome struct {
+			trace []string
+			files []string
+		}
+		outs := map[string]*outcome{}
+		var names []string
+		for _, fsc := range []struct {
+			name string
+			fsys fs.FileSystem
+			root string
+		}{
+			{"harness", tfs.New(), "th"},
+			{"mem", fs.Mem, fmt.Sprintf("c17th-%d-%d", res.Seed, round)},
+			{"os", fs.OS, filepath.Join(tmp, fmt.Sprintf("th-os-%d", round))},
+			{"osmmap", fs.OSMMap, filepath.Join(tmp, fmt.Sprintf("th-mm-%d", round))},
+		} {
+			oc := &outcome{}
+			outs[fsc.name] = oc
+			names = append(names, fsc.name)
+			note := func(what string, err error) {
+				if err != nil {
+					// (paths differ between the file systems: keep the text after the directory)
+					oc.trace = append(oc.trace, what+": error "+strings.ReplaceAll(err.Error(), fsc.root, "<dir>"))
+				} else {
+					oc.trace = append(oc.trace, what+": ok")
+				}
+			}
+			func() {
+				defer func() {
+					if rec := recover(); rec != nil {
+						oc.trace = append(oc.trace, fmt.Sprint("panic: ", rec))
+					}
+				}()
+				mk := func() *pogreb.Options {
+					o := &pogreb.Options{FileSystem: fsc.fsys}
+					pogreb.VerifSetThresholds(o, 1024, 512, math.Float32frombits(fragBits(0.5)))
+					return o
+				}
+				db, err := pogreb.Open(fsc.root, mk())
+				if err != nil {
+					note("open", err)
+					return
+				}
+				// fill the first segment; the next Put creates 00001-2.psg
+				n := 0
+				for ; n < 200; n++ {
+					if err := db.Put([]byte(fmt.Sprintf("th-%03d", n)), []byte("0123456789")); err != nil {
+						note("put", err)
+						return
+					}
+					if len(pogreb.VerifSegments(db)) >= 2 {
+						break
+					}
+				}
+				if err := db.Close(); err != nil {
+					note("close", err)
+					return
+				}
+				sub := fs.Sub(fsc.fsys, fsc.root)
+				// unclean: the lock file is there, the newest segment is cut inside its header
+				if lf, err := sub.OpenFile("lock", os.O_CREATE|os.O_RDWR, 0644); err == nil {
+					_, _ = lf.WriteAt([]byte{1}, 0)
+					_ = lf.Close()
+				} else {
+					note("create lock", err)
+					return
+				}
+				f, err := sub.OpenFile("00001-2.psg", os.O_RDWR, 0644)
+				if err != nil {
+					note("open segment file", err)
+					return
+				}
+				if err := f.Truncate(int64(keep)); err != nil {
+					note("truncate", err)
+				}
+				_ = f.Close()
+				db, err = pogreb.Open(fsc.root, mk())
+				note("open of the torn directory", err)
+				if err == nil {
+					oc.trace = append(oc.trace, fmt.Sprintf("count %d", db.Count()))
+					v, err := db.Get([]byte("th-000"))
+					oc.trace = append(oc.trace, fmt.Sprintf("get th-000 = %q %v", v, err))
+					note("put", db.Put([]byte("after"), []byte("x")))
+					v, err = db.Get([]byte("after"))
+					oc.trace = append(oc.trace, fmt.Sprintf("get after = %q %v", v, err))
+					note("close", db.Close())
+				}
+				ents, err := sub.ReadDir(".")
+				if err == nil {
+					for _, e := range ents {
+						if strings.HasSuffix(e.Name(), ".psg") {
+							if st, err := sub.Stat(e.Name()); err == nil {
+								oc.files = append(oc.files, fmt.Sprintf("%s:%d", e.Name(), st.Size()))
+							}
+						}
+					}
+					sort.Strings(oc.files)
+				}
+			}()
+		}
+		ref := outs[names[0]]
+		for _, nm := range names[1:] {
+			o := outs[nm]
+			a, b := strings.Join(ref.trace, " | ")+" || "+strings.Join(ref.files, " "), strings.Join(o.trace, " | ")+" || "+strings.Join(o.files, " ")
+			if a != b {
+				res.Findings = append(res.Findings, &Finding{Kind: "spec", Case: fmt.Sprintf("C17/torn-header/%d", keep), Cmd: fmt.Sprintf("unclean directory whose newest segment file has %d bytes (less than a header), on fs.%s", keep, nm),
+					Impl: []string{"fs." + nm + ": " + clip(b), "fs." + names[0] + ": " + clip(a)}, Expected: []string{"the same results and the same segment files on every FileSystem implementation"},
+					Program: []string{"open (1 KiB segments)", "put until a second segment exists", "close", "create lock file", fmt.Sprintf("truncate 00001-2.psg to %d bytes", keep), "open; count; get; put; get; close"}})
+				return
+			}
+		}
+		res.Tags["torn_header_directories_compared_across_file_systems"]++
 	}
 }
